@@ -1,25 +1,25 @@
 CONSTANTS
-  Key = {"k1", "k2"}
+  Key = {"k1", "k2", "k3"}
   Relevant = {429}
   Steps = {1, 2}
   PerSec = 2
   Writers = {"w1", "w2"}
-  Typ = "abs"
+  Typ = "mem"
   Ttl = 0
-  MaxSize <- cNoMax
-  Sts = {429, 200}
-  Hdrs = {0, 2, 3}
-  Szs = {1}
-  NVal = 2
-  MaxNow = 5
+  MaxSize = 3
+  Sts = {200}
+  Hdrs = {3}
+  Szs = {1, 2}
+  NVal = 4
+  MaxNow = 0
   KF_UnlockedSizeCheck = FALSE
   TruncNow = FALSE
   NoExpiryTest = FALSE
-  RefusalLeak = FALSE
+  RefusalLeak = TRUE
   Sync = FALSE
   KeepHist = TRUE
-  OneGate = FALSE
+  OneGate = TRUE
 SPECIFICATION ISpec
 VIEW View
-INVARIANTS CxPOk
+INVARIANTS CxHeldBound
 CHECK_DEADLOCK FALSE
